@@ -333,11 +333,13 @@ def signature_edit(rng, lib, g, node=None, kinds=None):
         vals = values_dict(nd)
         cands = [a for a in args if a["decl"] == "param" and a["ty"] != "path"]
         rng.shuffle(cands)
-        opts = kinds or ["value", "value", "value", "sibling", "pretask", "init", "taskout", "twin", "pre2init"]
+        opts = kinds or ["value", "value", "value", "sibling", "pretask", "init", "taskout", "twin", "pre2init", "constheld"]
         opts = list(opts)
         rng.shuffle(opts)
         if kinds is None and rng.random() < 0.75:  # prefer edits of parameter values
             opts = ["value", "sibling"] + [o for o in opts if o not in ("value", "sibling")]
+        if kinds is None and rng.random() < 0.15:
+            opts = ["constheld"] + [o for o in opts if o != "constheld"]
         for o in opts:
             if o in ("value", "scalar"):
                 for a in cands:
@@ -359,6 +361,12 @@ def signature_edit(rng, lib, g, node=None, kinds=None):
                         continue
                     set_value(nd, a["name"], cfggen.materialize(g["nodes"], e[0]))
                     return g, {"node": n, "arg": a["name"], "kind": e[1], "unamb": ty_unamb(a["ty"])}
+            if o == "constheld":
+                # the configuration *holds* another value for a Constant parameter than its class declares (a file saved under
+                # an earlier version of the class and loaded now; copyconfig with an override)
+                e = hold_constant_edit(rng, lib, g, n)
+                if e is not None:
+                    return g, e
             if o == "sibling":
                 # move a value to a sibling parameter of the same type
                 for a in cands:
@@ -403,6 +411,26 @@ def signature_edit(rng, lib, g, node=None, kinds=None):
                 if twin and not referenced:
                     nd["cls"] = twin
                     return g, {"node": n, "kind": "type-identifier-changed", "unamb": True}
+    return None
+
+
+def hold_constant_edit(rng, lib, g, n):
+    """in place: node n holds another value for one of its Constant parameters (scalars only); None if it has none or the node is
+    referenced before it exists (cycles are closed by later assignments on the object that is replaced here)"""
+    nd = g["nodes"][n]
+    consts = [a for a in cfggen.all_args(lib, nd["cls"]) if a["decl"] == "constant" and isinstance(a["ty"], str)]
+    if not consts or str(n) in (g.get("constset") or {}) or str(n) in (g.get("loaded") or {}):
+        return None
+    if any(r >= n for _, v in nd["values"] for r in _all_refs({"values": [["", v]], "pre": [], "init": [], "task": None})):
+        return None
+    if any(n in _all_refs(x) for i, x in enumerate(g["nodes"]) if i <= n):
+        return None
+    a = rng.choice(consts)
+    for _ in range(8):
+        nv = cfggen.gen_scalar(rng, a["ty"], lib)
+        if nv != a["default"] and not (_num(nv) is not None and _num(nv) == _num(a["default"])):
+            g.setdefault("constset", {})[str(n)] = {"via": rng.choice(["state", "copyconfig"]), "vals": [[a["name"], nv]]}
+            return {"node": n, "arg": a["name"], "kind": "constant-held-value", "unamb": True}
     return None
 
 
